@@ -54,13 +54,36 @@ def StepOutcome (cfg : Cfg) (ty : Ty) (c0 : Cur) (F : Nat → Items → Items) :
   (∃ T : Items → Items, ∀ m acc, F m acc = T acc) ∨
   (∃ (p' : Pump) (inp' : List RawItem) (g : Items → Items), Lt c0 (.live p' inp') ∧ ∀ m acc, F m acc = iterLoop cfg ty m p' inp' (g acc))
 
-theorem step_cases (cfg : Cfg) (ty : Ty) (hty : acceptsEnd ty = false) (p : Pump) (inp : List RawItem) :
+theorem step_cases (cfg : Cfg) (ty : Ty) (p : Pump) (inp : List RawItem) :
     StepOutcome cfg ty (.live p inp) (fun m acc => iterLoop cfg ty (m + 1) p inp acc) := by
+  -- recovery after an error item: skip to the next document
+  have hskip : ∀ (e : DErr) (p2 : Pump) (inp2 : List RawItem), Le (.live p inp) (.live p2 inp2) →
+      StepOutcome cfg ty (.live p inp) (fun m acc =>
+        let (found, p, inp) := Pump.skipToNextDocument p2 inp2
+        if found then iterLoop cfg ty m p inp (acc ++ [.error e]) else acc ++ [.error e]) := by
+    intro e p2 inp2 hle
+    have hlen := skipLoop_length inp2 { p2 with look := none, inject := [], recStack := [] }
+    rcases hs : Pump.skipToNextDocument p2 inp2 with ⟨found, p3, inp3⟩
+    unfold Pump.skipToNextDocument at hs
+    rw [hs] at hlen
+    cases found with
+    | false =>
+      refine Or.inl ?_
+      exact ⟨fun acc => acc ++ [.error e], fun m acc => by simp⟩
+    | true =>
+      refine Or.inr ?_
+      refine ⟨p3, inp3, fun acc => acc ++ [.error e], ?_, fun m acc => by simp⟩
+      have h3 := hlen.2 rfl
+      refine ⟨rfl, Or.inl ?_⟩
+      have := hle.2
+      simp only [curA] at h3 this ⊢
+      omega
   -- the branch that skips a null-like root scalar
   have hnull : ∀ (c : Cur) (ev : Ev), curLook c = some ev → Le (.live p inp) c →
       StepOutcome cfg ty (.live p inp) (fun m acc =>
         match c.next with
-        | .ok _ (.live p inp) | .err _ (.live p inp) => iterLoop cfg ty m p inp acc
+        | .ok _ (.live p inp) => iterLoop cfg ty m p inp acc
+        | .err e _ => acc ++ [.error e]
         | _ => acc) := by
     intro c ev hlook hle
     obtain ⟨c2, hn, hlt⟩ := next_of_look hlook
@@ -69,8 +92,8 @@ theorem step_cases (cfg : Cfg) (ty : Ty) (hty : acceptsEnd ty = false) (p : Pump
     refine ⟨p2, inp2, id, hle.trans_lt hlt, ?_⟩
     intro m acc
     simp only [hn, id]
-  -- the branch that runs the typed deserializer
-  have hdeser : ∀ (c : Cur) (ev : Ev), curLook c = some ev → Le (.live p inp) c →
+  -- the branch that runs the typed deserializer (never on a container end)
+  have hdeser : ∀ (c : Cur) (ev : Ev), curLook c = some ev → isEndEv ev = false → Le (.live p inp) c →
       StepOutcome cfg ty (.live p inp) (fun m acc =>
         match deser (fuelFor 100000) cfg ty false false c with
         | .ok v (.live p inp) => iterLoop cfg ty m p inp (acc ++ [.ok v])
@@ -78,9 +101,10 @@ theorem step_cases (cfg : Cfg) (ty : Ty) (hty : acceptsEnd ty = false) (p : Pump
           let (found, p, inp) := Pump.skipToNextDocument p inp
           if found then iterLoop cfg ty m p inp (acc ++ [.error e]) else acc ++ [.error e]
         | _ => acc) := by
-    intro c ev hlook hle
+    intro c ev hlook hne hle
     have hk : curK c = 1 := by rw [hle.1]; rfl
-    have hroot := deser_root (fuelFor 100000) cfg ty false false c ev hlook (fun _ => hty)
+    have hroot := deser_root (fuelFor 100000) cfg ty false false c ev hlook
+      (fun h => by rw [hne] at h; cases h)
     have hle2 := (allLe (fuelFor 100000)).deser cfg ty false false c
     cases hr : deser (fuelFor 100000) cfg ty false false c with
     | ok v c2 =>
@@ -93,24 +117,7 @@ theorem step_cases (cfg : Cfg) (ty : Ty) (hty : acceptsEnd ty = false) (p : Pump
       rw [hr] at hle2
       have hle' : Le c c2 := hle2
       obtain ⟨p2, inp2, rfl⟩ := live_of_curK (c := c2) (by rw [hle'.1, hk])
-      have hlen := skipLoop_length inp2 { p2 with look := none, inject := [], recStack := [] }
-      rcases hs : Pump.skipToNextDocument p2 inp2 with ⟨found, p3, inp3⟩
-      unfold Pump.skipToNextDocument at hs
-      rw [hs] at hlen
-      cases found with
-      | false =>
-        refine Or.inl ?_
-        exact ⟨fun acc => acc ++ [.error e], fun m acc => by simp [Pump.skipToNextDocument, hs]⟩
-      | true =>
-        refine Or.inr ?_
-        refine ⟨p3, inp3, fun acc => acc ++ [.error e], ?_, fun m acc => by simp [Pump.skipToNextDocument, hs]⟩
-        have h3 := hlen.2 rfl
-        have h4 := hle.trans hle'
-        refine ⟨rfl, Or.inl ?_⟩
-        simp only [curA] at h3 h4 ⊢
-        have := h4.2
-        simp only [curA] at this
-        omega
+      exact hskip e p2 inp2 (hle.trans hle')
   obtain ⟨p1, inp1, hlive⟩ := peek_live p inp
   have hple := peek_le (.live p inp)
   cases hpk : Cur.peek (.live p inp) with
@@ -135,28 +142,28 @@ theorem step_cases (cfg : Cfg) (ty : Ty) (hty : acceptsEnd ty = false) (p : Pump
         · have := hnull _ _ hlook hple
           simp only [iterLoop, hpk, hn, if_true]
           exact this
-        · have := hdeser _ _ hlook hple
+        · have := hdeser _ _ hlook rfl hple
           simp only [iterLoop, hpk, hn, if_false, Bool.false_eq_true]
           exact this
       | seqStart a tg rt l =>
-        have := hdeser _ _ hlook hple
-        simp only [iterLoop, hpk, if_false, Bool.false_eq_true]
-        exact this
-      | seqEnd l =>
-        have := hdeser _ _ hlook hple
+        have := hdeser _ _ hlook rfl hple
         simp only [iterLoop, hpk, if_false, Bool.false_eq_true]
         exact this
       | mapStart a l =>
-        have := hdeser _ _ hlook hple
+        have := hdeser _ _ hlook rfl hple
         simp only [iterLoop, hpk, if_false, Bool.false_eq_true]
+        exact this
+      | seqEnd l =>
+        have := hskip ⟨"UnexpectedSequenceEnd", l, 0⟩ p1 inp1 hple
+        simp only [iterLoop, hpk]
         exact this
       | mapEnd l =>
-        have := hdeser _ _ hlook hple
-        simp only [iterLoop, hpk, if_false, Bool.false_eq_true]
+        have := hskip ⟨"UnexpectedMappingEnd", l, 0⟩ p1 inp1 hple
+        simp only [iterLoop, hpk]
         exact this
 
-/-- the iterator loop stabilises (for target types that do not accept a stray container end) -/
-theorem iter_stabilises (cfg : Cfg) (ty : Ty) (hty : acceptsEnd ty = false) (p : Pump) (inp : List RawItem) :
+/-- the iterator loop stabilises, for every target type, pump state and item list -/
+theorem iter_stabilises (cfg : Cfg) (ty : Ty) (p : Pump) (inp : List RawItem) :
     ∃ n, ∀ k acc, iterLoop cfg ty (n + k) p inp acc = iterLoop cfg ty n p inp acc := by
   have key : ∀ c : Cur, ∀ p inp, c = .live p inp →
       ∃ n, ∀ k acc, iterLoop cfg ty (n + k) p inp acc = iterLoop cfg ty n p inp acc := by
@@ -165,7 +172,7 @@ theorem iter_stabilises (cfg : Cfg) (ty : Ty) (hty : acceptsEnd ty = false) (p :
     | hstep c ih =>
       intro p inp hc
       subst hc
-      rcases step_cases cfg ty hty p inp with ⟨T, hT⟩ | ⟨p', inp', g, hlt, hrec⟩
+      rcases step_cases cfg ty p inp with ⟨T, hT⟩ | ⟨p', inp', g, hlt, hrec⟩
       · refine ⟨1, fun k acc => ?_⟩
         have h1 := hT k acc
         have h2 := hT 0 acc
